@@ -8,6 +8,7 @@ import Driver.Ins
 import Driver.Expr
 import Driver.VEq
 import Driver.Types
+import Driver.Tmpl
 /-! Line-protocol driver: one request per line on stdin, one canonical result line on stdout. -/
 open SeaQ SeaQ.Util
 
@@ -58,6 +59,8 @@ def handleWords (line : String) : String :=
     match backendOf b, decodeStr s with
     | some b, some cs => "ok " ++ encodeStr (Ident.prepare (Ident.quoteOf b) cs)
     | _, _ => "bad-op"
+  | "tmpl" :: args => Driver.Tmpl.runTmpl args
+  | "inj" :: args => Driver.Tmpl.runInj args
   | _ => "bad-op"
 
 /-- requests whose argument is an S-expression take the rest of the line -/
